@@ -2190,6 +2190,7 @@ where
         attr: &AttrDetails,
         wb: &mut WriteBuf<'_>,
     ) -> Result<bool, Error> {
+        let orig_attr = attr;
         let mut attr = attr.clone();
 
         // First generate an empty array
@@ -2240,6 +2241,24 @@ where
                     {
                         return Ok(false);
                     }
+                }
+                Err(_) if list_index.is_none() => {
+                    // The handler refuses the attribute as a whole, so what did not fit
+                    // in the chunk was the status reporting that, not the list: send the
+                    // chunk (unless that just happened) and write the status to the next one
+                    if !chunk_is_empty
+                        && !self
+                            .send(ReportDataChunkState::ChunkingAttributes, false, wb)
+                            .await?
+                    {
+                        return Ok(false);
+                    }
+
+                    self.invoker
+                        .process_read(&Ok(orig_attr.clone()), &mut *wb)
+                        .await?;
+
+                    break;
                 }
                 Err(err) if err.code() == ErrorCode::ConstraintError => break, // Got to the end of the array
                 Err(err) => Err(err)?,
